@@ -20,7 +20,7 @@ struct DtxSim {
   bool in_silence = true;
   int64_t last_ctl48 = -1;             // time of the most recent control change
   bool onset_seen = false;             // first tiny packet of the current silence run already seen
-  bool prev_loud = false, loud_before_silence = false; int64_t loud_run48 = 0;   // the silence run was entered straight from >= 300 ms of loud frames
+  bool prev_loud = false, loud_before_silence = false; int64_t loud_run48 = 0; double max_rms = 0;   // the silence run was entered straight from >= 300 ms of loud frames
   // burst bookkeeping
   int64_t burst_start48 = -1; int burst_fam = -1; int64_t burst_amp = 0; bool first_of_burst = false; int64_t prev_burst_amp = 0;
   // run of consecutive tiny packets
@@ -28,7 +28,7 @@ struct DtxSim {
   // receiver statistics
   double gap_eG = 0, gap_eP = 0; long gap_n = 0;
   double post_eG = 0, post_eR = 0; long post_n = 0; int64_t post_from48 = -1;
-  bool drop_next = false; int64_t lost_recent48 = -1;
+  bool drop_next = false; int64_t lost_recent48 = -1, last_tiny48 = -1;
   bool ever_nonsilent = false, run_started_before_any_sound = false;
   explicit DtxSim(Run &r) : run(r) {}
 
@@ -83,7 +83,11 @@ struct DtxSim {
       e2 += (double)v * v;
     }
     double frame_rms = sqrt(e2 / (double)std::max<size_t>(1, pcm.size()));
-    bool loud = !silent && frame_rms >= 0.01;
+    // LOUD = unmistakable activity: an AC source family at >= -26 dBFS and within 6 dB of the loudest frame so far (the detectors
+    // judge activity relative to the running peak level, and a DC offset is no activity at all)
+    bool ac_family = S.src.fam == SRC_TONES || S.src.fam == SRC_SWEEP || S.src.fam == SRC_VOICED || S.src.fam == SRC_NOISE || S.src.fam == SRC_SQUARE || S.src.fam == SRC_MUSIC || S.src.fam == SRC_STEREO;
+    if (ac_family && frame_rms > max_rms) max_rms = frame_rms;
+    bool loud = !silent && ac_family && frame_rms >= 0.05 && frame_rms >= 0.5 * max_rms;
     // ---- ground truth bookkeeping
     first_of_burst = false;
     if (silent) { if (!in_silence) { in_silence = true; silence_start48 = S.t48; onset_seen = false; sil_dmax48 = 0; loud_before_silence = prev_loud && loud_run48 >= 300 * 48; } sil_dmax48 = std::max(sil_dmax48, d48); }
@@ -116,6 +120,8 @@ struct DtxSim {
     double bytes_per_frame = m_bitrate == OPUS_AUTO || m_bitrate == OPUS_BITRATE_MAX ? 1e9 : (double)m_bitrate * d48 / 48000.0 / 8.0;
     run.sg(mix64(mix64((uint64_t)tiny, (uint64_t)silent), mix64((uint64_t)fi, (uint64_t)(m_dtx * 2 + analysis_cfg))));
     if (tiny) run.count("tiny_packets");
+    bool onset_was_seen = onset_seen;
+    if (tiny && in_silence && silent) onset_seen = true;   // whatever made it tiny: the onset clause only speaks about the first one
     // ---- O5: DTX disabled => no packet of two bytes or fewer (bitrate and buffer allow well over three bytes)
     if (!m_dtx && tiny && bytes_per_frame >= 8 && max_bytes >= 100)
       REPORT(run, prop, "tiny_packet_with_dtx_disabled", "ret=%d frame_ms=%.1f bitrate=%d toc=%02x t=%.0fms", ret, d48 / 48.0, m_bitrate, pkt[0], t0 / 48.0);
@@ -141,14 +147,13 @@ struct DtxSim {
         if (first_of_burst && frame_rms >= 0.05 && burst_amp >= prev_burst_amp && (burst_fam == SRC_TONES || burst_fam == SRC_MUSIC || burst_fam == SRC_NOISE || burst_fam == SRC_SQUARE || burst_fam == SRC_SWEEP))
           REPORT(run, prop, "first_active_frame_sent_as_dtx", "family %s amp %lld t=%.0fms frame_ms=%.1f cplx=%d fs=%d", kSrcName[burst_fam], (long long)burst_amp, t0 / 48.0, d48 / 48.0, m_complexity, L.fs);
         // ---- O1 (lower bound): no DTX packet lies wholly inside the 200 ms hang-over after activity stops
-        if (analysis_cfg && in_silence && silent && !onset_seen && dtx_since48 >= 0 && dtx_since48 <= silence_start48 && last_ctl48 <= silence_start48) {
+        if (analysis_cfg && in_silence && silent && !onset_was_seen && dtx_since48 >= 0 && dtx_since48 <= silence_start48 && last_ctl48 <= silence_start48) {
           run.count("onset_checked");
           if (loud_before_silence) run.count("onset_lower_bound_checked");
           if (loud_before_silence && t1 <= silence_start48 + 200 * MS)
             REPORT(run, prop, "dtx_before_200ms_hangover", "tiny packet covers %.1f..%.1f ms after activity stopped (frame %.1f ms)", (t0 - silence_start48) / 48.0, (t1 - silence_start48) / 48.0, d48 / 48.0);
           if (t0 > silence_start48 + 200 * MS + sil_dmax48)
             REPORT(run, prop, "dtx_onset_late", "first tiny packet starts %.1f ms after activity stopped (frame %.1f ms)", (t0 - silence_start48) / 48.0, d48 / 48.0);
-          onset_seen = true;
         }
       } else {
         if (tiny_run_pkts > 0) { run.count("dtx_runs"); if (silent) run.count("dtx_refresh"); }
@@ -180,8 +185,14 @@ struct DtxSim {
         gap_eG += energy(pg); gap_eP += energy(pp); gap_n += (long)pg.size();
       }
       // normal audio afterwards: from 500 ms after a loud burst resumed, for as long as it lasts
-      if (m_dtx && loud && !tiny && loud_run48 >= 500 * MS && !pr.empty() && !lost && lost_recent48 < 0) {
+      if (tiny) last_tiny48 = t0;
+      // precondition (same as C09's recovery clause): CELT-only packets, or an aperiodic source. A SILK / hybrid decoder whose
+      // long-term predictor state differs from the encoder's does not reconverge on a stationary periodic signal (a healthy IIR
+      // decoder can even ring up for a while), so a level comparison is only meaningful where the predictor memory is flushed.
+      bool flushable = toc_mode(pkt[0]) == 2 || burst_fam == SRC_NOISE;
+      if (m_dtx && loud && !tiny && flushable && loud_run48 >= 500 * MS && (last_tiny48 < 0 || t0 >= last_tiny48 + 500 * MS) && !pr.empty() && !lost && lost_recent48 < 0) {
         post_eG += energy(pg); post_eR += energy(pr); post_n += (long)pg.size();
+        if (run.verbose) printf("   post: rmsG=%.5f rmsR=%.5f ret=%d rret=%d in_rms=%.5f\n", sqrt(energy(pg) / pg.size()), sqrt(energy(pr) / pr.size()), ret, rret, frame_rms);
       }
     }
     S.pos += frame; S.t48 += d48; run.sim_samples48 += d48;
@@ -196,7 +207,7 @@ struct DtxSim {
       if (run.stat["max:gap_rms_G_micro"] < ug) run.stat["max:gap_rms_G_micro"] = ug;
       if (run.stat["max:gap_rms_P_micro"] < up) run.stat["max:gap_rms_P_micro"] = up;
       if (getenv("OPSIM_CALIB")) fprintf(stderr, "C20GAP rmsG=%.6f rmsP=%.6f n=%ld\n", rg, rp, gap_n);
-      const double SIGMA = 0.01;   // -40 dBFS
+      const double SIGMA = 0.001;   // -60 dBFS (worst observed 3.0e-4 over 3000 gaps)
       if (rg > SIGMA) REPORT(run, prop, "gap_not_near_silent_G", "rms %.5f over %ld samples", rg, gap_n);
       if (rp > SIGMA) REPORT(run, prop, "gap_not_near_silent_P", "rms %.5f over %ld samples", rp, gap_n);
     }
@@ -208,7 +219,7 @@ struct DtxSim {
         long milli = (long)(ratio * 1000);
         if (run.stat["max:post_ratio_milli"] < milli) run.stat["max:post_ratio_milli"] = milli;
         if (run.stat.find("min:post_ratio_milli") == run.stat.end()) {}
-        if (ratio < 0.25 || ratio > 4.0) REPORT(run, prop, "audio_after_gap_level_wrong", "rms ratio DTX-stream/reference = %.3f over %ld samples (reference rms %.4f)", ratio, post_n, rr);
+        if (ratio < 0.5 || ratio > 2.0) REPORT(run, prop, "audio_after_gap_level_wrong", "rms ratio DTX-stream/reference = %.3f over %ld samples (reference rms %.4f)", ratio, post_n, rr);
       }
     }
   }
